@@ -1,0 +1,29 @@
+//go:build verif
+
+package decoder
+
+// VerifVersion is a read-only copy of one entry of the decoder's size table
+// (verification harness only; compiled with -tags verif).
+type VerifVersion struct {
+	Number, Rows, Cols, RegionRows, RegionCols int
+	ECPerBlock                                 int
+	Blocks                                     [][2]int // (count, data codewords)
+	TotalCodewords                             int
+}
+
+// VerifVersions returns a copy of the unexported versions table.
+func VerifVersions() []VerifVersion {
+	out := make([]VerifVersion, 0, len(versions))
+	for _, v := range versions {
+		vv := VerifVersion{
+			Number: v.versionNumber, Rows: v.symbolSizeRows, Cols: v.symbolSizeColumns,
+			RegionRows: v.dataRegionSizeRows, RegionCols: v.dataRegionSizeColumns,
+			ECPerBlock: v.ecBlocks.getECCodewords(), TotalCodewords: v.totalCodewords,
+		}
+		for _, b := range v.ecBlocks.getECBlocks() {
+			vv.Blocks = append(vv.Blocks, [2]int{b.getCount(), b.getDataCodewords()})
+		}
+		out = append(out, vv)
+	}
+	return out
+}
